@@ -250,3 +250,111 @@ def build_copula_model(specs: list, copula: str = "independent", theta: float = 
     cop = {"independent": IndependentComponentsCopula, "dependent": DependentComponentsCopula}.get(copula)
     cop = cop() if cop else ClaytonCopula(theta=theta, eta=eta)
     return LevyCopulaModel([build_model(s) for s in specs], cop)
+
+
+# ------------------------------------------------------------------------------------ 2-d density tables and their Levy copula
+class Table2:
+    """Levy measure on R^2 with piecewise-constant dyadic density: pieces (lo1, hi1, lo2, hi2, d), each inside one closed
+    quadrant.  Its margins are step measures; `copula()` is the Levy copula of this very measure (Kallsen-Tankov:
+    F(u1,u2) = U(U1^{-1}(u1), U2^{-1}(u2)) with the signed tail integrals), evaluated in exact rational arithmetic.
+    With a grid whose end points cover the support, LevyCopulaModel.mass of any rectangle is the integral of the density
+    and every float operation is exact."""
+
+    def __init__(self, pieces):
+        self.pieces = [tuple(Fraction(v) for v in p) for p in pieces]
+        for lo1, hi1, lo2, hi2, d in self.pieces:
+            assert lo1 < hi1 and lo2 < hi2 and d >= 0
+            assert (lo1 >= 0 or hi1 <= 0) and (lo2 >= 0 or hi2 <= 0), "a piece must lie in one closed quadrant"
+
+    def mass_q(self, a, b) -> Fraction:
+        tot = Fraction(0)
+        for lo1, hi1, lo2, hi2, d in self.pieces:
+            l1, h1 = max(Fraction(a[0]), lo1), min(Fraction(b[0]), hi1)
+            l2, h2 = max(Fraction(a[1]), lo2), min(Fraction(b[1]), hi2)
+            if l1 < h1 and l2 < h2:
+                tot += d * (h1 - l1) * (h2 - l2)
+        return tot
+
+    def margin(self, k: int, strict: bool = True) -> StepMeasure:
+        cuts = sorted({p[2 * k] for p in self.pieces} | {p[2 * k + 1] for p in self.pieces})
+        dens = []
+        for lo, hi in zip(cuts, cuts[1:]):
+            d = Fraction(0)
+            for p in self.pieces:
+                if p[2 * k] <= lo and hi <= p[2 * k + 1]:
+                    d += p[4] * (p[3 - 2 * k] - p[2 - 2 * k])
+            dens.append(d)
+        return StepMeasure(cuts, dens, finite_variation=True, strict=strict)
+
+    def support_bound(self) -> Fraction:
+        return max(max(abs(v) for v in p[:4]) for p in self.pieces)
+
+    def coq(self) -> str:
+        from common import qlit, lst
+        return lst(["(" + ", ".join(qlit(v) for v in p) + ")" for p in self.pieces])
+
+    def copula(self):
+        return TableCopula(self)
+
+
+class TableCopula:
+    def __init__(self, table: Table2):
+        from rpylib.distribution.levycopula import LevyCopula  # noqa (duck-typed: LevyCopulaModel only calls it)
+        self.table = table
+        self.margins = [table.margin(0, strict=False), table.margin(1, strict=False)]
+        self.big = table.support_bound() + 1
+
+    def __repr__(self):
+        return "TableCopula()"
+
+    def _inverse(self, k: int, u: Fraction):
+        """(x, positive_side) with signed tail integral U_k(x) = u (x = 0 when |u| exceeds the half-line mass)"""
+        nu = self.margins[k]
+        if u > 0:
+            rest = u
+            for lo, hi, d in reversed(nu.pieces()):
+                if hi <= 0:
+                    break
+                lo = max(lo, Fraction(0))
+                m = d * (hi - lo)
+                if m >= rest and d > 0:
+                    return hi - rest / d, True
+                rest -= m
+            return Fraction(0), True
+        rest = -u
+        for lo, hi, d in nu.pieces():
+            if lo >= 0:
+                break
+            hi = min(hi, Fraction(0))
+            m = d * (hi - lo)
+            if m >= rest and d > 0:
+                return lo + rest / d, False
+            rest -= m
+        return Fraction(0), False
+
+    def __call__(self, us) -> float:
+        us = [float(v) for v in us]
+        if any(v == 0 for v in us):
+            return 0.0
+        pts = []
+        for k, v in enumerate(us):
+            if v == math.inf:
+                pts.append((Fraction(0), True))
+            elif v == -math.inf:
+                pts.append((Fraction(0), False))
+            else:
+                pts.append(self._inverse(k, Fraction(v)))
+        a = [x if pos else -self.big for x, pos in pts]
+        b = [self.big if pos else x for x, pos in pts]
+        sgn = 1
+        for _, pos in pts:
+            sgn *= 1 if pos else -1
+        val = sgn * self.table.mass_q(a, b)
+        x = float(val)
+        return x
+
+
+def table_copula_model(table: Table2, a=(0.0, 0.0), sigma=(0.0, 0.0), strict=True):
+    from rpylib.model.levycopulamodel import LevyCopulaModel
+    models = [StepModel(table.margin(k, strict=strict), a=a[k], sigma=sigma[k]) for k in (0, 1)]
+    return LevyCopulaModel(models, table.copula())
